@@ -179,3 +179,16 @@ def run(ctx):
     ok = len(sp) == 1 and isinstance(sp[0].rhs, E) and sp[0].rhs.canon().endswith('reset_sequencer.current_speed')
     ctx.ob('C05.speed-source', 'USBDevice.speed', ok, sp[0].loc if sp else None,
            'USBDevice.speed must come from the reset sequencer\'s current_speed: %s' % [q.fmt(a) for a in sp])
+    # every signal on the way from the reset sequencer to the timer must hold all three speeds (LOW = 2 needs two bits): a
+    # narrower hop truncates LOW to HIGH silently and the low-speed device runs with high-speed gaps
+    hops = [(dev, 'self.speed', 'USBDevice.speed')]
+    tk = ctx.ir('USBTokenDetector', 'usb2.packet', allow_opaque=True)
+    hops.append((tk, 'self.speed', 'USBTokenDetector.speed'))
+    tm = ctx.ir('USBInterpacketTimer', 'usb2.packet')
+    hops.append((tm, 'self.speed', 'USBInterpacketTimer.speed'))
+    for ir_, nm, key in hops:
+        si_ = ir_.signals.get(nm)
+        w_ = getattr(si_, 'w', None)
+        ctx.ob('C05.speed-width', key, isinstance(w_, int) and w_ >= 2, getattr(si_, 'loc', None),
+               '%s must be at least 2 bits wide to carry USBSpeed.LOW = 2 (declared width %s, shape %s)' % (
+                   key, w_, getattr(si_, 'shape_src', None)))
